@@ -31,6 +31,10 @@ pub struct Case {
     /// hyper reads such a body as chunked; whatever the declared number says, a body above the limit is refused and not relayed
     #[serde(default)]
     pub also_declared: Option<(u32, bool)>,
+    /// chunked bodies above the limit only: the sender does not end the body - after limit + 1 .. bytes it keeps the body open
+    /// and trickles small chunks until it has been answered (a streaming uploader): the refusal must not wait for the end
+    #[serde(default)]
+    pub open_ended: bool,
 }
 
 fn target_class() -> impl Strategy<Value = (String, String)> {
@@ -76,8 +80,9 @@ pub fn strategy(big_weight: u32) -> impl Strategy<Value = Case> {
         any::<bool>(),
         prop::option::weighted(0.35, 0u8..4),
         prop::option::weighted(0.2, (prop_oneof![Just(0u32), Just(5u32), Just(LOW as u32), Just(LOW as u32 - 1), 1u32..200_000], prop::bool::weighted(0.7))),
+        prop::bool::weighted(0.3),
     )
-        .prop_map(|((method, target), (len, big), pattern, chunked, uid_sel, helper_sel, key, telemetry, prelude, also_declared)| {
+        .prop_map(|((method, target), (len, big), pattern, chunked, uid_sel, helper_sel, key, telemetry, prelude, also_declared, open_ended)| {
             // the 100 MiB class only makes sense on the exempt pairs
             let (method, target) = if big {
                 if telemetry { ("POST".to_string(), "/machine/?comp=telemetrydata".to_string()) } else { ("PUT".to_string(), "/vmAgentLog".to_string()) }
@@ -86,11 +91,11 @@ pub fn strategy(big_weight: u32) -> impl Strategy<Value = Case> {
             };
             // the 100 MiB class: two thirds undeclared (chunked), where the limit is only found while the body arrives
             let chunked = if big { if pattern % 3 != 0 { Some(vec![1 << 20]) } else { None } } else { chunked };
-            Case { rec: Rec { uid_sel, helper_sel, is_root: uid_sel == 0, dest: DestSel::Imds }, method, target, len, pattern, chunked, key, prelude: if big { None } else { prelude }, also_declared: if big { None } else { also_declared } }
+            Case { rec: Rec { uid_sel, helper_sel, is_root: uid_sel == 0, dest: DestSel::Imds }, method, target, len, pattern, chunked, key, prelude: if big { None } else { prelude }, also_declared: if big { None } else { also_declared }, open_ended: open_ended && !big }
         })
 }
 
-pub const RULE: &str = "generator: authorised attributed requests to IMDS; method/URL class in {non-exempt, PUT /vmAgentLog and POST /machine/?comp=telemetrydata in random letter case, near misses of the exemption (wrong method, extra query, trailing slash)}; body length in {0, 1, L-1, L, L+1, L+4096, 2L, L +/- 64, random} for L = 100 KiB and, on the exempt pairs, {L'-1, L', L'+1} for L' = 100 MiB (about 1% of the cases in the quick tier); declared by Content-Length or undeclared (chunked: one single chunk, generated chunk sizes, one chunk of L or L+1; a fifth of the chunked requests ALSO carry a Content-Length line - 0, 5, L-1, L or random - before or after the Transfer-Encoding line: within the limit they may be relayed intact or refused, above it they are refused and never relayed). In 35% of the cases a small request (exempt upload, GET or ordinary POST) is sent and answered first on the same keep-alive connection, so that the limit class of the connection's first request differs from that of the request under test. The client writes the body from a second thread while the first waits for the response, so an early refusal is seen. oracle: limit_ref(method, target) from the statement; length > limit => status 4xx and zero body bytes relayed (no request recorded at the mock); length <= limit => exactly one request at the mock whose de-framed body has the same length and content, status 200. non-trivial: length within +/- 1 of a limit, or chunked above the limit; distinct by hash of the case.";
+pub const RULE: &str = "generator: authorised attributed requests to IMDS; method/URL class in {non-exempt, PUT /vmAgentLog and POST /machine/?comp=telemetrydata in random letter case, near misses of the exemption (wrong method, extra query, trailing slash)}; body length in {0, 1, L-1, L, L+1, L+4096, 2L, L +/- 64, random} for L = 100 KiB and, on the exempt pairs, {L'-1, L', L'+1} for L' = 100 MiB (about 1% of the cases in the quick tier); declared by Content-Length or undeclared (chunked: one single chunk, generated chunk sizes, one chunk of L or L+1; a fifth of the chunked requests ALSO carry a Content-Length line - 0, 5, L-1, L or random - before or after the Transfer-Encoding line: within the limit they may be relayed intact or refused, above it they are refused and never relayed). In 35% of the cases a small request (exempt upload, GET or ordinary POST) is sent and answered first on the same keep-alive connection, so that the limit class of the connection's first request differs from that of the request under test. The client writes the body from a second thread while the first waits for the response, so an early refusal is seen; 30% of the over-limit chunked senders never end the body but keep trickling one-byte chunks until they have been answered (within 15 s). oracle: limit_ref(method, target) from the statement; length > limit => status 4xx and zero body bytes relayed (no request recorded at the mock); length <= limit => exactly one request at the mock whose de-framed body has the same length and content, status 200. non-trivial: length within +/- 1 of a limit, or chunked above the limit; distinct by hash of the case.";
 
 pub fn body_bytes(len: usize, pattern: u8) -> Vec<u8> {
     let mut v = vec![0u8; len];
@@ -180,6 +185,12 @@ pub fn eval(rig: &Rig, case: &Case, stats: &mut Stats) -> Outcome {
         }
         let _ = rig.mock.take_requests();
     }
+    let open_ended = case.open_ended && over && case.chunked.is_some();
+    if open_ended {
+        stats.class("sender:keeps-the-over-limit-chunked-body-open-until-answered");
+    }
+    let answered = std::sync::Arc::new(std::sync::atomic::AtomicBool::new(false));
+    let answered_w = answered.clone();
     let before = rig.mock.total_bytes();
     let mut wstream = match conn.stream.try_clone() {
         Ok(s) => s,
@@ -189,14 +200,27 @@ pub fn eval(rig: &Rig, case: &Case, stats: &mut Stats) -> Outcome {
         let w = sc.spawn(move || {
             let _ = wstream.write_all(&head);
             let _ = wstream.flush();
-            for piece in framed.chunks(256 * 1024) {
+            // (an open-ended sender leaves out the terminating chunk "0 CRLF CRLF" and trickles until it has been answered)
+            let upto = if open_ended { framed.len().saturating_sub(5) } else { framed.len() };
+            for piece in framed[..upto].chunks(256 * 1024) {
                 if wstream.write_all(piece).is_err() {
                     break;
                 }
             }
             let _ = wstream.flush();
+            if open_ended {
+                let t0 = std::time::Instant::now();
+                while !answered_w.load(std::sync::atomic::Ordering::Relaxed) && t0.elapsed() < Duration::from_secs(22) {
+                    if wstream.write_all(b"1\r\nx\r\n").is_err() {
+                        break;
+                    }
+                    let _ = wstream.flush();
+                    std::thread::sleep(Duration::from_millis(100));
+                }
+            }
         });
-        let r = conn.read(&case.method, Duration::from_secs(if case.len > 4 * 1024 * 1024 { 120 } else { 25 }));
+        let r = conn.read(&case.method, Duration::from_secs(if case.len > 4 * 1024 * 1024 { 120 } else if open_ended { 15 } else { 25 }));
+        answered.store(true, std::sync::atomic::Ordering::Relaxed);
         let _ = conn.stream.shutdown(std::net::Shutdown::Both);
         let _ = w.join();
         r
